@@ -4,14 +4,14 @@
    extracted inductives.  No Extract Constant / Extract Inductive of our own. *)
 Require Extraction.
 Require Import ExtrOcamlBasic ExtrOcamlString.
-From OSQ Require Import Num IR Graph Bits Construct DefaultTable Matrix Check ABA Merge McKay CNOTDec Decompose Remap Dec Writer QSExport ParserExpand Builder.
+From OSQ Require Import Num IR Graph Bits Construct DefaultTable Matrix Sem Check ABA Merge McKay CNOTDec Decompose Remap Dec Writer QSExport ParserExpand Builder.
 Extraction Language OCaml.
 Extraction "model.ml"
   mkNum mkCircuit mkGinfo
   graph_edges graph_nodes
   reduced_ket expand_ket
   normalize_angle mk_axis mk_axis_checked mk_bsr_checked mk_bsr mk_bsr_ax mk_ctrl mk_mat is_identity bsr_identity
-  can1 get_matrix circuit_matrix gates_matrix
+  can1 get_matrix circuit_matrix gates_matrix kraus_gen
   default_gate aba_angles aba_gates mckay_gates cnot_gates compose_gates try_name merge decompose replace run_decomposer
   remap mapping_ok mapper_ok apply_mapping render_py8 fix_literal write3 export_v1 export_qs
   parse_program expand_program builder_run builder_step
